@@ -178,7 +178,7 @@ def run(chk, replay=None):
     jobs = [("products validated by TLC, part %d" % i, drive_b, (i, [2, 4, 8, 16, 32] + ([64] if not quick else []),
                                                                   12 if quick else 60, False)) for i in range(8)]
     # 3. scale
-    big = [64, 256, 1024, 4096] if quick else [64, 256, 1024, 4096, 16384, 65536]
+    big = [64, 256, 1024, 4096, 16384] if quick else [64, 256, 1024, 4096, 8192, 16384, 32768, 65536]
     jobs += [("products at scale, part %d" % i, drive_b, (100 + i, big, 20 if quick else 60, True)) for i in range(8)]
     res = isolated_many(chk, jobs, timeout=3000, nproc=12)
     events = [ev for d in res if d for ev in d["events"]]
